@@ -123,6 +123,8 @@ CHECKS["C13"]["text"] += " Medium inputs (6-12 nodes) include nearly equal weigh
 CHECKS["C17"]["text"] += " Also: the input re-derived by get_subgraph / reverse().reverse() inside every hash-key environment, and medium graphs with nearly equal weights (around 1 and, scaled by 2^53, whole numbers whose sums round) free-running under several hash-key environments."
 CHECKS["C20"]["text"] += " The table is also run on reverse(), to_single_edges(), get_subgraph(all) and set_all_edge_weights(2) of every small graph, and as two-call histories (one call on graph A, then the whole table on a smaller graph B on the same thread)."
 CHECKS["C19"]["text"] += " Plus attribute injection (every start tag x 26 attribute names x 14 extreme values) and text replacement (every attribute value and text node x a menu of long / non-ASCII / multi-byte strings)."
+CHECKS["C03"]["text"] += " Every transition is preceded by queries that end with early-stopping searches (cutoff, target, first_only); the first node's Dijkstra is judged immediately after the mutation."
+CHECKS["C04"]["text"] += " Every single_source call is also made in its distance-only form (no paths) and must report the same nodes and distances."
 CHECKS["C02"]["text"] += " Name lists with repeats (longer than the node list) must be answered like the set."
 CHECKS["C09"]["text"] += " A large-graph stage repeats counts, degree maps and handshake sums on 21-200-node graphs (hubs) under real rayon."
 CHECKS["C10"]["text"] += " Paths and cycles with 150 000 (thorough 600 000) nodes run in a child process on a 2 MiB-stack thread (recursion depth)."
